@@ -52,7 +52,6 @@ def register(reg, P):
             from flax import nnx
             from jax2onnx import onnx_function
 
-            @onnx_function(unique=unique)
             class Affine(nnx.Module):
                 def __init__(self, w, k=1.0, mode="id"):
                     self.w = nnx.Param(jnp.asarray(w, dtype=jnp.float32))
@@ -62,6 +61,9 @@ def register(reg, P):
                 def __call__(self, x):
                     y = x * self.w[...] * self.k
                     return jnp.tanh(y) if self.mode == "tanh" else y
+
+            Affine.__name__ = Affine.__qualname__ = f"Affine_{differ}_{'u1' if unique else 'u0'}_o{order}"
+            Affine = onnx_function(Affine, unique=unique)
 
             if differ == "weights":
                 m1, m2 = Affine([1.0, 2.0, 3.0]), Affine([0.5, -1.0, 4.0])
@@ -93,7 +95,6 @@ def register(reg, P):
             from flax import nnx
             from jax2onnx import onnx_function
 
-            @onnx_function(unique=unique)
             class Inner(nnx.Module):
                 def __init__(self, s):
                     self.s = nnx.Param(jnp.asarray(s, dtype=jnp.float32))
@@ -101,7 +102,9 @@ def register(reg, P):
                 def __call__(self, x):
                     return x + self.s[...]
 
-            @onnx_function(unique=unique)
+            Inner.__name__ = Inner.__qualname__ = f"Inner_{'u1' if unique else 'u0'}"
+            Inner = onnx_function(Inner, unique=unique)
+
             class Outer(nnx.Module):
                 def __init__(self):
                     self.a = Inner([1.0, 0.0, -1.0])
@@ -110,6 +113,8 @@ def register(reg, P):
                 def __call__(self, x):
                     return self.a(x) * self.b(x)
 
+            Outer.__name__ = Outer.__qualname__ = f"OuterNested_{'u1' if unique else 'u0'}"
+            Outer = onnx_function(Outer, unique=unique)
             m = Outer()
             return lambda x: m(x) - 1.0
 
@@ -134,6 +139,59 @@ def register(reg, P):
 
         return b
 
+    def tied_blocks(unique, differ, order):
+        """two blocks inside an outer nnx.Module with TIED weights (same rng seed): only the static
+        configuration (bool / float / str / int) differs between the call sites"""
+        def b():
+            import jax.numpy as jnp
+            from flax import nnx
+            from jax2onnx import onnx_function
+
+            class TiedBlock(nnx.Module):
+                def __init__(self, dim, *, residual, scale, act, reps, rngs):
+                    self.linear = nnx.Linear(dim, dim, rngs=rngs)
+                    self.residual = residual
+                    self.scale = scale
+                    self.act = act
+                    self.reps = reps
+
+                def __call__(self, x):
+                    y = self.linear(x)
+                    for _ in range(self.reps):
+                        y = jnp.tanh(y) if self.act == "tanh" else jnp.sin(y)
+                    y = y * self.scale
+                    return x + y if self.residual else y
+
+            # one registry entry per family member: the plugin registry is keyed by qualified name
+            TiedBlock.__name__ = TiedBlock.__qualname__ = f"TiedBlock_{differ}_{'u1' if unique else 'u0'}_o{order}"
+            TiedBlock = onnx_function(TiedBlock, unique=unique)
+
+            class Outer(nnx.Module):
+                def __init__(self):
+                    cfg_a = dict(residual=True, scale=1.0, act="tanh", reps=1)
+                    cfg_b = dict(cfg_a)
+                    if differ == "bool":
+                        cfg_b["residual"] = False
+                    elif differ == "float":
+                        cfg_b["scale"] = 0.25
+                    elif differ == "str":
+                        cfg_b["act"] = "sin"
+                    elif differ == "int":
+                        cfg_b["reps"] = 2
+                    self.a = TiedBlock(3, rngs=nnx.Rngs(0), **cfg_a)
+                    self.b = TiedBlock(3, rngs=nnx.Rngs(0), **cfg_b)
+
+                def __call__(self, x):
+                    return self.b(self.a(x)) if order == 0 else self.a(self.b(x))
+
+            return Outer()
+
+        return b
+
+    for unique in (False, True):
+        for differ in ("bool", "float", "str", "int", "none"):
+            for order in (0, 1):
+                mk(f"tied_blocks/{differ}/{'u1' if unique else 'u0'}/o{order}", tied_blocks(unique, differ, order), [((2, 3), F32)], tier="quick" if order == 0 else "thorough")
     for unique in (False, True):
         mk(f"module_nested/{'u1' if unique else 'u0'}", module_nested(unique), [((3,), F32)])
     mk("module_param_flag", module_param_flag(), [((3,), F32)], input_params={"deterministic": True})
